@@ -7,9 +7,9 @@ class C10(LogCheck):
     vfiles = VFILES + ["Properties/Properties_C10.v"]
     ocaml = dict(name="log_c10", extracted="log_model.ml", glue=("glue_base.ml", "glue_z.ml", "log_lib.ml"), driver="log_c10_driver.ml")
     corpus = "C10.txt"
-    level_text = ("Thirteen theorems proved in Coq for ALL minima, thresholds, filter expressions, severities and item lists over the "
+    level_text = ("Fifteen theorems proved in Coq for ALL minima, thresholds, filter expressions, severities and item lists over the "
                   "model of stream.hpp: the statement's stream type is smart_stream iff severity >= compile-time minimum, a "
-                  "null_stream discards every insertion; a statement that is not enabled (either reason, either form) produces no "
+                  "null_stream discards every insertion; the run-time filter is asked about the COMPLETE record (severity and tag set: a stream is live iff the gate is open and the filter code accepts the record carrying the statement's tag; a statement rejected for its tag does nothing); a statement that is not enabled (either reason, either form) produces no "
                   "Call, no Format and no Sink event; an enabled one calls exactly the streamed callables, each as often as it was "
                   "streamed, in streaming order, each at the insertion that streams it (named form: the insertion statement emits "
                   "the call iff the stream is live, and live <-> enabled is invariant; one-expression form: after every prefix of "
@@ -33,7 +33,7 @@ class C10(LogCheck):
                   "'costs nothing' is checked as 'no observable evaluation and a stream type without state', not as generated code "
                   "size or time; correspondence is testing, exhaustive only over the finite single-statement space (thorough)")
     rule = ("same case space as C05 (programs over threshold changes, one-expression statements, named streams, stream-type queries; "
-            "6 binaries, one per compile-time minimum). Callable items carry an id and one of 8 C++ shapes (o l p f F c k v, see "
+            "6 binaries, one per compile-time minimum; incl. the tag-filter grid: user-written filters that accept/reject by tag, alone and under and/or/not with thresholds, tagged and untagged statements in every form, callables in every statement). Callable items carry an id and one of 8 C++ shapes (o l p f F c k v, see "
             "props/log_common.py); every shape occurs alone and after a string item at every (minimum, logger, relevant threshold "
             "setting, severity, form) cell, and in every ordered pair of shapes for two loggers. Items that make the stringstream fail (null const char*, null streambuf*, a user operator<< "
             "setting failbit) occur before, between and after callables; statements also run inside destructors during stack "
